@@ -84,7 +84,16 @@ def discover():
     return out
 
 
-def make_overlay(dst, extra_tests=None):
+def _wanted(path, prop):
+    """Shared files (no @harness annotation) are always included; harness files only for their property, so a
+    harness that stops compiling after a source change cannot break the checks of other properties."""
+    if prop is None:
+        return True
+    ids = re.findall(r"^\s*// @harness .*?\bid=(\w+)", open(path).read(), re.M)
+    return (not ids) or (prop in ids)
+
+
+def make_overlay(dst, extra_tests=None, prop=None):
     """Copy /repo's *current working tree* sources and append the harness modules.
     extra_tests: {harness_file_path: rust code inserted before that module's closing brace}."""
     os.makedirs(dst, exist_ok=True)
@@ -101,7 +110,7 @@ def make_overlay(dst, extra_tests=None):
     appended = {}
     for path in sorted(glob.glob(os.path.join(HARNESS_DIR, "*", "*.rs"))):
         src = os.path.basename(os.path.dirname(path))
-        if src.startswith("_"):
+        if src.startswith("_") or not _wanted(path, prop):
             continue
         target = os.path.join(dst, "src", src + ".rs")
         if not os.path.exists(target):
@@ -247,7 +256,7 @@ def run_harness(h, overlay, tdir, logdir, extra=None, tag=""):
 def run_all(hs, logdir):
     """Run harnesses in parallel under a memory budget. Returns overlay path."""
     root = scratch_root()
-    overlay = make_overlay(os.path.join(root, "ind"))
+    overlay = make_overlay(os.path.join(root, "ind"), prop=hs[0].id)
     os.makedirs(logdir, exist_ok=True)
     pending = sorted(hs, key=lambda h: -h.timeout)  # longest first
     lock = threading.Lock()
@@ -306,6 +315,12 @@ def playback(h, logdir):
     r = run_harness(h, overlay, tdir, logdir, extra=["-Z", "concrete-playback", "--concrete-playback=print"], tag=".cex")
     text = open(r["log"], errors="replace").read()
     tests = PB_RE.findall(text)
+    if not tests and h.kind == "should_panic":
+        # no symbolic input: the native replay runs the harness body and requires the panic
+        tests = ["/// Replay of should_panic harness `%s`: the call must panic natively.\n#[test]\n"
+                 "fn kani_concrete_playback_%s_sp() {\n"
+                 "    let r = std::panic::catch_unwind(|| { kani::concrete_playback_run(vec![], %s); });\n"
+                 "    assert!(r.is_err(), \"expected an explicit panic, none was raised\");\n}\n" % (h.name, h.name, h.name)]
     if not tests:
         return {"status": "no-cex", "detail": "Kani produced no concrete playback test (%s)" % r.get("verdict")}
     code = tests[0]
@@ -313,7 +328,7 @@ def playback(h, logdir):
     tname = m.group(1)
     pdir = os.path.join(root, "play_" + h.name)
     shutil.rmtree(pdir, ignore_errors=True)
-    make_overlay(pdir, extra_tests={h.hfile: code})
+    make_overlay(pdir, extra_tests={h.hfile: code}, prop=h.id)
     log = os.path.join(logdir, h.name + ".playback.log")
     env = dict(ENV, CARGO_TARGET_DIR=os.path.join(root, "target_play"), RUST_BACKTRACE="0")
     cmd = ["cargo", "kani", "playback", "-Z", "concrete-playback"] + feature_args(h) + ["--", tname]
